@@ -72,6 +72,40 @@ fn main() {
                 }
             }
         }
+        "fuzz" => {
+            // diagnostic (tools/fuzz_sensitivity.sh): one E3 campaign alone, no evidence written.
+            //   verif fuzz <target> <prop> <runs_total>
+            if args.len() < 5 {
+                usage();
+            }
+            engine::install_quiet_panic_hook();
+            let c = ctx(&args[3], Tier::Thorough);
+            let target = args[2].as_str();
+            let runs: u64 = args[4].parse().unwrap_or(100_000);
+            let (max_len, seeds, dict) = match target {
+                "text_frontend" => (2048, kiki_verif::fuzzrun::text_seeds(), true),
+                "grammar_struct" => (300, vec![vec![0u8; 40], (0u8..200).collect()], false),
+                "raw_struct" => (600, kiki_verif::fuzzrun::raw_seeds(), false),
+                "hash_header" => (200, vec![b"// @sha256 abc\n".to_vec()], true),
+                _ => (400, vec![vec![5, 1, 3, 1, 3, 4, 2, 3, 3, 1, 2, 3, 1, 1, 2, 1]], false),
+            };
+            let t = std::time::Instant::now();
+            let camp = kiki_verif::fuzzrun::Campaign { target, prop: &args[3], runs_total: runs, max_len, seeds, dict };
+            match kiki_verif::fuzzrun::campaign(&c, &camp) {
+                None => {
+                    println!("fuzz target {target} is not built");
+                    std::process::exit(2);
+                }
+                Some(out) => {
+                    let real: Vec<_> = out.failures.iter().filter(|f| !f.internal).collect();
+                    println!("E3 target={target} prop={} executions={} failures={} (violations={}) wall_s={:.1}", args[3], out.stats.evaluations, out.failures.len(), real.len(), t.elapsed().as_secs_f64());
+                    for f in out.failures.iter().take(5) {
+                        println!("  {} {} :: {}", if f.internal { "internal" } else { "VIOLATION" }, f.kind, f.detail.lines().next().unwrap_or(""));
+                    }
+                    std::process::exit(if !real.is_empty() { 1 } else if !out.failures.is_empty() { 2 } else { 0 });
+                }
+            }
+        }
         "worker" => {
             let code = props::worker(&args[2..]);
             std::process::exit(code);
